@@ -705,12 +705,12 @@ func (it *k4interp) eval1(fr *k4frame, v ssa.Value) (k4val, error) {
 					if a.s == "zero" {
 						fa = k4val{kind: 2}
 					} else {
-						fa, errA = it.lookup(a.s+"."+st.Field(i).Name(), st.Field(i).Type())
+						fa, errA = it.lookup(a.s+"."+canonFieldName(st.Field(i)), st.Field(i).Type())
 					}
 					if b.s == "zero" {
 						fb = k4val{kind: 2}
 					} else {
-						fb, errB = it.lookup(b.s+"."+st.Field(i).Name(), st.Field(i).Type())
+						fb, errB = it.lookup(b.s+"."+canonFieldName(st.Field(i)), st.Field(i).Type())
 					}
 					if errA != nil {
 						return k4val{}, errA
@@ -787,7 +787,7 @@ func (it *k4interp) eval1(fr *k4frame, v ssa.Value) (k4val, error) {
 			if st, ok := x.Index.Type().Underlying().(*types.Struct); ok {
 				var parts []string
 				for i := 0; i < st.NumFields(); i++ {
-					fv, err := it.lookup(iv.s+"."+st.Field(i).Name(), st.Field(i).Type())
+					fv, err := it.lookup(iv.s+"."+canonFieldName(st.Field(i)), st.Field(i).Type())
 					if err != nil {
 						return fv, err
 					}
